@@ -346,7 +346,7 @@ def run_kani(crate, target_dir, harnesses, harness_timeout, group_timeout, jobs,
     return results, wall, shown, out
 
 
-CHECK_RE = re.compile(r'^Check \d+: (?P<id>.+)\n\t - Status: (?P<st>\w+)\n\t - Description: "(?P<desc>.*)"\n\t - Location: (?P<loc>.*)$', re.M)
+CHECK_RE = re.compile(r'^Check \d+: (?P<id>[^\n]+)\n\t - Status: (?P<st>\w+)\n\t - Description: "(?P<desc>.*?)"\n\t - Location: (?P<loc>[^\n]*)$', re.M | re.S)   # descriptions of multi-line assert!s span lines
 
 UNDECIDED_DESCS = ['uninitialized', 'Undefined Behavior: Reading from an uninitialized',
                    'unwinding assertion', 'is not currently supported by Kani', 'not supported', 'unsupported',
